@@ -366,11 +366,12 @@ func reportCmd(args []string) error {
 				os.Remove(filepath.Join(home, "stdout.log"))
 				os.Remove(filepath.Join(home, "stderr.log"))
 			}
+			// the exit status as the properties see it: zero or not (which non-zero value is nobody's business)
 			exit := 0
 			if runErr != nil {
-				exit = -1
+				exit = 1
 				if ee, ok := runErr.(*exec.ExitError); ok {
-					exit = ee.ExitCode()
+					st.Exits[strconv.Itoa(ee.ExitCode())]++
 				}
 			}
 			stdout := ansiRe.ReplaceAllString(so.String(), "")
